@@ -35,6 +35,14 @@ CLAIMED = {
     text='Symbolic execution of SBX, polynomial / uniform / non-uniform mutation, clip, the swarm turbulence operators, gen_number / gen_vector / RandomGenerator and the value mapping of every DOE generator with a SYMBOLIC box, parents anywhere in the closed box and every random draw, probability, distribution index and iteration symbolic: every returned coordinate inside the box (up to the declared precision for samplers) on every path; in the *-domain configurations additionally no pow() on a negative base and no zero divisor is feasible (no complex number / exception can reach clip). The swarm position update is covered by C18; the whole-run clause holds by composition with the C09 skeletons (assume-guarantee, stated in the evidence).',
     note='dimension <=2 quick / <=3 thorough (domain: 1 coordinate); floats as reals; box configurations havoc nonlinear intermediates (sound: the final clip establishes containment); integer/boolean parameters and SimpleMutator/SimpleCrossover outside',
     ref='DESIGN.md section 5 C08'),
+ 'C09': dict(
+    text='Decomposed (whole-run symbolic exploration is out of reach): (1) the body of the generation loop of NSGAII.run is cut out of the current source and executed symbolically from an arbitrary evaluated parent population: exactly N evaluations, N recorded individuals with the right tag, no repeated design, no survivor dominated by a dropped candidate, monotone best cost (m=1), for all cost values; (2) GeneticAlgorithm.generate with arbitrary in-box children returns exactly N pairwise distinct offspring (unwinding 3); (3) Selector.pop_acceptance, all cases, arbitrary costs; (4) run skeletons of NSGA-II / eps-MOEA / OMOPSO / SMPSO with every placement of injected transient failures: budget, tags, sizes, provenance. Parts 1-3 are solver-decided for all values within the size bounds; part 4 is composition glue (concrete objective, seeded randomness, fault placement as solver choice).',
+    note='N=2 (m<=2) quick, N=3 (m=1) thorough; generate unwound 3 iterations (longer paths cut, counted; termination not claimed); skeletons N<=3, G<=3; self.generate replaced by its contract in the step harness',
+    ref='DESIGN.md section 5 C09'),
+ 'C10': dict(
+    text='PARTIAL: the real to_dict / json / sqlite3 / read_from_datastore / from_dict run on histories of sync operations with symbolic float leaves crossing the text boundary as tokens; "returned leaf == last synced leaf for that id" is decided by z3 for all values (swapped, dropped or truncated fields, first-wins conflict clauses and stale rows give models with distinct values that are replayed with real doubles through the real store); one row per id; problem definition round trip; a small real algorithm run with the store attached ends with a row holding the final data of every recorded individual.',
+    note='NOT claimed: bit-exactness of float repr/parse for all doubles (observed only on concrete validation/replay runs), the SQLite engine, durability; histories <=3 operations quick / <=6 thorough, <=3 individuals',
+    ref='DESIGN.md section 5 C10'),
  'C12': dict(
     text='LHS: the real lhs/_lhsclassic/build_lhs/LHSGenerator run on NumPy object arrays with symbolic draws and every permutation as a path; exactly one sample per stratum is an SMT obligation for all draws and all boxes. Halton: the per-index loop body of _van_der_corput is cut out of the current source (AST) and run on a symbolic index in digit form, proving the radical-inverse law for EVERY index below b^K; generator output = independent radical-inverse oracle scaled to symbolic bounds. Uniform grid and random generator with symbolic bounds.',
     note='LHS N<=3 quick / N<=4 thorough; digit law bases 2..7 quick / 2..13 thorough with bounded digit counts; Halton unit samples compared at 1e-12; floats as reals',
